@@ -267,6 +267,9 @@ pub proof fn lemma_variant_ty(a: StunAttribute)
 {
     if let StunAttribute::Unknown(u) = a { axiom_unknown_not_registered(u); }
 }
+pub assume_specification<T, U, D: FnOnce() -> U, F: FnOnce(T) -> U> [std::option::Option::<T>::map_or_else] (o: Option<T>, default: D, f: F) -> (r: U)
+    requires o is None ==> call_requires(default, ()), o is Some ==> call_requires(f, (o->Some_0,)),
+    ensures o is None ==> call_ensures(default, (), r), o is Some ==> call_ensures(f, (o->Some_0,), r);
 pub open spec fn opt_ref_is(o: Option<&StunAttribute>, attrs: Seq<StunAttribute>, idx: Option<int>) -> bool {
     match o { Some(a) => idx is Some && *a == attrs[idx->Some_0], None => idx is None }
 }
@@ -785,6 +788,133 @@ impl LongTermCredentialClient {
         final(self).validator.is_reliable == old(self).validator.is_reliable,
         r == old(self).violated().contains(*transaction_id),
         final(self).violated() == old(self).violated().remove(*transaction_id),
+//@end
+    pub open spec fn same_ident(&self, o: &LongTermCredentialClient) -> bool {
+        self.user_name == o.user_name && self.password == o.password && self.validator.is_reliable == o.validator.is_reliable
+    }
+//@item stun_agent :: mod lt_cred_mech > impl LongTermCredentialClient > fn process_unauthenticated_error_response
+//@tags C08 C17
+//@spec
+    ensures final(self).same_ident(old(self)),
+        ({
+            let needs_auth = message_integrity is Some || message_integrity_sha256 is Some;
+            let chosen = match auth_params.integrity { Integrity::MessageIntegrity => message_integrity, Integrity::MessageIntegritySha256 => message_integrity_sha256 };
+            let verified = chosen is Some && mac_ok(*chosen->Some_0, auth_params.key, raw_buffer@);
+            if needs_auth && !verified {
+                // a challenge that carries an integrity attribute must verify under the freshly derived key
+                r == Err::<(), IntegrityError>(old(self).validator.discard_outcome(msg).0)
+                && final(self).violated() == old(self).validator.discard_outcome(msg).1
+                && final(self).params == old(self).params && final(self).state == old(self).state
+            } else {
+                // otherwise: adopt the new credentials and tell the application to retry
+                r == Err::<(), IntegrityError>(IntegrityError::Retry)
+                && final(self).params == Some(auth_params)
+                && final(self).state == LongTermCredentialState::Retry(RetryCause::Unauthenticated)
+                && final(self).violated() == (if needs_auth && !(msg.sclass() is Indication) { old(self).violated().remove(msg.sid()) } else { old(self).violated() })
+            }
+        }),
+//@end
+//@item stun_agent :: mod lt_cred_mech > impl LongTermCredentialClient > fn process_stale_nonce_error_response
+//@tags C08 C17
+//@closure 1
+|| -> (x: IntegrityError)
+    ensures x is Discarded,
+//@spec
+    ensures final(self).same_ident(old(self)),
+        (nonce is None || old(self).params is None) ==> r == Err::<(), IntegrityError>(IntegrityError::Discarded) && *final(self) == *old(self),
+        (nonce is Some && old(self).params is Some) ==> {
+            let p = old(self).params->Some_0;
+            let needs_auth = message_integrity is Some || message_integrity_sha256 is Some;
+            let chosen = match p.integrity { Integrity::MessageIntegrity => message_integrity, Integrity::MessageIntegritySha256 => message_integrity_sha256 };
+            let verified = chosen is Some && mac_ok(*chosen->Some_0, p.key, raw_buffer@);
+            if needs_auth && !verified {
+                r == Err::<(), IntegrityError>(old(self).validator.discard_outcome(msg).0)
+                && final(self).violated() == old(self).validator.discard_outcome(msg).1
+                && final(self).params == old(self).params && final(self).state == old(self).state
+            } else {
+                // switch to the new nonce (everything else, the key included, is kept) and retry
+                r == Err::<(), IntegrityError>(IntegrityError::Retry)
+                && final(self).params == Some(LongTermCredentialAttributes { nonce: nonce->Some_0, ..p })
+                && final(self).state == LongTermCredentialState::Retry(RetryCause::StaleNonce)
+                && final(self).violated() == (if needs_auth && !(msg.sclass() is Indication) { old(self).violated().remove(msg.sid()) } else { old(self).violated() })
+            }
+        },
+//@end
+//@item stun_agent :: mod lt_cred_mech > impl LongTermCredentialClient > fn process_error
+//@tags C08 C17
+//@spec
+    ensures final(self).same_ident(old(self)), final(self).params == old(self).params, final(self).state == old(self).state,
+        old(self).params is None ==> r == Err::<(), IntegrityError>(IntegrityError::Discarded) && *final(self) == *old(self),
+        old(self).params is Some ==> compute_post(old(self).validator, final(self).validator, old(self).params->Some_0.key,
+            (match old(self).params->Some_0.integrity { Integrity::MessageIntegrity => message_integrity, Integrity::MessageIntegritySha256 => message_integrity_sha256 }),
+            raw_buffer@, msg, r),
+//@end
+//@item stun_agent :: mod lt_cred_mech > impl LongTermCredentialClient > fn process_success_response
+//@tags C08 C17
+//@rules R4
+//@sub "msg.attributes().protected_iter()" => "VxSliceRef(msg.attributes()).protected_iter()"
+//@closure 1
+|| -> (x: Result<(HMACKey, Integrity), IntegrityError>)
+    ensures x == Err::<(HMACKey, Integrity), IntegrityError>(IntegrityError::Discarded),
+//@closure 2
+|params: &LongTermCredentialAttributes| -> (x: Result<(HMACKey, Integrity), IntegrityError>)
+    ensures x == Ok::<(HMACKey, Integrity), IntegrityError>((params.key, params.integrity)),
+//@head
+    let ghost attrs = msg.attrs();
+    let ghost n = attrs.len() as int;
+//@loop 1
+    invariant
+        vx_it0.wf(), vx_it0.iter.s@ == attrs, n == attrs.len(), attrs == msg.attrs(),
+        *self == *old(self), old(self).params is Some,
+        key == old(self).params->Some_0.key, integrity == old(self).params->Some_0.integrity,
+        // no admitted integrity attribute of the other kind so far; the one of the agreed kind is tracked
+        match integrity {
+            Integrity::MessageIntegrity => opt_ref_is(message_integrity, attrs, sel(attrs, vx_it0.iter.pos as int, TY_MESSAGEINTEGRITY))
+                && sel(attrs, vx_it0.iter.pos as int, TY_MESSAGEINTEGRITYSHA256) is None && message_integrity_sha256 is None,
+            Integrity::MessageIntegritySha256 => opt_ref_is(message_integrity_sha256, attrs, sel(attrs, vx_it0.iter.pos as int, TY_MESSAGEINTEGRITYSHA256))
+                && sel(attrs, vx_it0.iter.pos as int, TY_MESSAGEINTEGRITY) is None && message_integrity is None,
+        },
+    ensures
+        vx_it0.iter.pos == n,
+    decreases n - vx_it0.iter.pos,
+//@loopstart 1
+    let ghost p0 = vx_it0.iter.pos as int;
+//@at "Some(attribute) => {"
+    proof {
+        let k = vx_it0.iter.pos - 1;
+        lemma_sel_skip(attrs, p0, k, TY_MESSAGEINTEGRITY);
+        lemma_sel_skip(attrs, p0, k, TY_MESSAGEINTEGRITYSHA256);
+        assert(types_of(attrs)[k] == attrs[k].ty());
+        lemma_variant_ty(attrs[k]);
+        assert(*attribute == attrs[k]);
+        assert(admitted(types_of(attrs), k));
+        if sel(attrs, k + 1, TY_MESSAGEINTEGRITY) is Some { lemma_sel_mono(attrs, k + 1, n, TY_MESSAGEINTEGRITY); }
+        if sel(attrs, k + 1, TY_MESSAGEINTEGRITYSHA256) is Some { lemma_sel_mono(attrs, k + 1, n, TY_MESSAGEINTEGRITYSHA256); }
+    }
+//@before "break; }"
+    proof {
+        lemma_sel_skip(attrs, p0, n, TY_MESSAGEINTEGRITY);
+        lemma_sel_skip(attrs, p0, n, TY_MESSAGEINTEGRITYSHA256);
+    }
+//@spec
+    ensures final(self).same_ident(old(self)), final(self).params == old(self).params, final(self).state == old(self).state,
+        old(self).params is None ==> r == Err::<(), IntegrityError>(IntegrityError::Discarded) && *final(self) == *old(self),
+        old(self).params is Some ==> {
+            let p = old(self).params->Some_0;
+            let mi = sel(msg.attrs(), msg.attrs().len() as int, TY_MESSAGEINTEGRITY);
+            let sha = sel(msg.attrs(), msg.attrs().len() as int, TY_MESSAGEINTEGRITYSHA256);
+            let (mine, other) = match p.integrity { Integrity::MessageIntegrity => (mi, sha), Integrity::MessageIntegritySha256 => (sha, mi) };
+            // a response protected with the other algorithm is ignored; otherwise it is accepted exactly when the
+            // integrity attribute of the agreed algorithm verifies under the long-term key
+            if other is Some {
+                r == Err::<(), IntegrityError>(IntegrityError::Discarded) && *final(self) == *old(self)
+            } else {
+                &&& (r is Ok <==> mine is Some && mac_ok(msg.attrs()[mine->Some_0], p.key, raw_buffer@))
+                &&& (r is Ok ==> final(self).violated() == (if msg.sclass() is Indication { old(self).violated() } else { old(self).violated().remove(msg.sid()) }))
+                &&& (r is Err ==> r->Err_0 == old(self).validator.discard_outcome(msg).0
+                        && final(self).violated() == old(self).validator.discard_outcome(msg).1)
+            }
+        },
 //@end
 }
 proof fn vx_sentinel() ensures false {}
